@@ -1,25 +1,40 @@
-"""C06 — rolling and lagging results never depend on later (or pre-window) data. TEMPORARY Engine-K-only registration (scratch)."""
+"""C06 — rolling and lagging results never depend on later (or pre-window) data. Engine K (two-run relational harnesses for lags and
+the exact kernels) + Engine M (window locality of the float kernels; look-ahead obligation in the executor)."""
 import kani_engine
+from mir_engine import props_m
 
-RULE = ("one Kani harness per (function, element type, length N): two symbolic runs (prefix / whole series, or two histories "
-        "that agree on the window) compared bit for bit; lag, window, min_periods and contents are kani::any(); a harness is "
-        "non-trivial when its kani::cover! witnesses are SATISFIED")
+RULE = ("Engine K: two symbolic runs per harness — on a prefix x[..cut] and on x, or on two histories that agree on the window — with "
+        "bit-for-bit equality of the corresponding outputs (lags n in 0..=N+2, every proper cut). Engine M: every float kernel executed "
+        "from MIR on histories longer than the window; per position i >= w z3 is asked for a history where the output differs from the "
+        "statistic of positions i-w+1..=i alone (which does not mention the pre-window values), and every element read is checked to lie "
+        "at or before the current position; non-trivial = covers SATISFIED / all queries unsat")
 
 MANIFEST = {
-    "engine": "K",
-    "technique": "bounded model checking (Kani/CBMC), two-run relational harnesses",
+    "engine": "K+M",
+    "technique": "relational bounded model checking (Kani/CBMC, two runs) for shift/vshift/vdiff/vpct_change and the exact rolling kernels; "
+                 "MIR->SMT symbolic execution with z3 for window locality of the float kernels",
     "design_ref": "DESIGN.md 3/C06",
-    "level_text": "CBMC decides for all contents, lags 0..=N+2, windows 1..=N+2 and min_periods at each concrete length N that "
-                  "prefix evaluation equals the prefix of the whole evaluation (lags, exact rolling kernels) and that the "
-                  "extrema/rank kernels do not depend on pre-window history",
-    "level_note": "trusted: Kani/CBMC/CaDiCaL; bound: N <= 4 (quick) / <= 5 (thorough); float kernels are Engine M's",
+    "level_text": "for all series of length 3 (2..=5 thorough), all lags 0..=N+2 and every proper prefix, shift/vshift/vdiff/vpct_change and "
+                  "ts_vsum(i32)/ts_vmin/vmax/vargmin/vargmax/vrank/vminmaxnorm give bit-identical outputs on the prefix and on the whole series, "
+                  "and the exact kernels are unchanged by replacing the pre-window history; for all real histories of length w+2..w+3 (w<=3; "
+                  "thorough w<=4, up to w+4) each of the 30 float kernels returns at positions >= w exactly the window statistic, i.e. is "
+                  "independent of the pre-window values in exact arithmetic, and never reads beyond the current position",
+    "level_note": "trusted: Kani/CBMC, z3, driver protocol (C02: call i receives only x[<=i], calls in index order, hence bitwise prefix "
+                  "stability of the float kernels follows from determinism); rounding-level dependence on pre-window values is outside; "
+                  "MapBasic::shift restricted to n <= prefix length (its n > len behaviour is C09/C13)",
 }
+READY = True
 
 
 def check(v, tier, opts):
     v.functions.update(["MapBasic::shift", "MapValidBasic::vshift", "MapValidVec::vdiff", "MapValidVec::vpct_change",
-                        "ts_vsum(i32)", "ts_vmin", "ts_vmax", "ts_vargmin", "ts_vargmax", "ts_vrank", "ts_vminmaxnorm"])
-    v.bounds.append("lags: N in {2,4} quick, {1,3,5} thorough, n in 0..=N+2, every cut; rolling prefix: N in {2,3} quick, 4 thorough; locality: N in {3,4} quick")
-    v.outside.append("shift with n > len (C09/C13); float kernels (Engine M); negative lags")
+                        "ts_vsum, ts_vmin, ts_vmax, ts_vargmin, ts_vargmax, ts_vrank, ts_vminmaxnorm (two-run)",
+                        "30 float kernels of features.rs / binary.rs / reg.rs / norm.rs (Engine M)"])
+    v.bounds.append("Engine K: N=3 quick (2,4,5 thorough); lag n in 0..=N+2; cuts 1..=N-1; explicit min_periods, omitted only for prefix >= w")
+    v.bounds.append("Engine M: w in 1..=3 quick (4 thorough), L = w+2..w+3 (w+1..w+4 thorough), min_periods in {0,1,w}, sampled null masks; |x|<=100")
+    v.outside.append("dependence on pre-window values at the level of floating-point rounding; +-inf / NaN poisoning by expired non-finite values (DESIGN 5.2)")
+    only = opts.get("only")
     kani_engine.decide(v, "C06", tier, opts)
+    if not only or only.startswith("ts_"):
+        props_m.c06_m(v, tier, opts)
     return v.finish(RULE)
